@@ -50,10 +50,12 @@ func NewDecimal(i int64, exponent int) (Decimal, error) {
 		intPart = i / int64(math.Pow10(-exponent))
 		fracPart = i % int64(math.Pow10(-exponent)) * int64(math.Pow10(4+exponent))
 	} else {
-		intPart = i * int64(math.Pow10(exponent))
-		if i > 0 && intPart < i {
+		pow := int64(math.Pow10(exponent))
+		intPart = i * pow
+		// the product may wrap around more than once, so also bound the multiplicand
+		if i > 0 && (i > math.MaxInt64/pow || intPart < i) {
 			return Decimal{}, fmt.Errorf("%w: value %ve%v would overflow", errDecimal, i, exponent)
-		} else if i < 0 && intPart > i {
+		} else if i < 0 && (i < math.MinInt64/pow || intPart > i) {
 			return Decimal{}, fmt.Errorf("%w: value %ve%v would underflow", errDecimal, i, exponent)
 		}
 	}
